@@ -128,7 +128,7 @@ func lnumberValue(expr ast.Expr) (LNumber, bool) {
 	if ex, ok := expr.(*ast.NumberExpr); ok {
 		lv, err := parseNumber(ex.Value)
 		if err != nil {
-			lv = LNumber(math.NaN())
+			return 0, false // not folded: compileExpr reports the malformed number
 		}
 		return lv, true
 	} else if ex, ok := expr.(*constLValueExpr); ok {
@@ -1174,7 +1174,7 @@ func compileExpr(context *funcContext, reg int, expr ast.Expr, ec *expcontext) i
 	case *ast.NumberExpr:
 		num, err := parseNumber(ex.Value)
 		if err != nil {
-			num = LNumber(math.NaN())
+			raiseCompileError(context, sline(ex), "malformed number near '%s'", ex.Value)
 		}
 		code.AddABx(OP_LOADK, sreg, context.ConstIndex(num), sline(ex))
 		return sused
